@@ -321,3 +321,7 @@ func (i batchIssuer2) Evaluate(req tokens.TokenRequest) ([]byte, error) {
 	}
 	return i.BasicPublicIssuer.Evaluate(r)
 }
+
+type bigInt = big.Int
+
+var attMu sync.Mutex
